@@ -257,7 +257,16 @@ def check_es(ctx, ES, x, y, ts, taumax, lag, cid, relations=False,
                 shift = float(rr.choice([2.0 ** 24, 2.0 ** 25 + 1, 1.7e9,
                                          -2.0 ** 31, 2.0 ** 40, 2451545.0]))
                 ctx.count("shift_epoch_sized")
-            x2, y2, ts2 = x, y, np.asarray(ts, dtype=float) + shift
+            tsf = np.asarray(ts, dtype=float)
+            if not np.array_equal((tsf + shift) - shift, tsf):
+                # (stamps in a unit in which this shift is not a sum of
+                #  representable numbers: shift by a multiple of the largest
+                #  stamp instead, which is exact)
+                shift = float(np.abs(tsf).max()) * float(rr.integers(1, 5))
+                if not np.array_equal((tsf + shift) - shift, tsf):
+                    shift = 0.0
+                ctx.count("shift_in_units_of_the_stamps")
+            x2, y2, ts2 = x, y, tsf + shift
         with warnings.catch_warnings():
             warnings.simplefilter("ignore")
             ok, o3 = ctx.call(ES.event_synchronization, x2, y2, ts1=ts2,
@@ -273,6 +282,11 @@ def check_es(ctx, ES, x, y, ts, taumax, lag, cid, relations=False,
             c = float(2.0 ** rr.integers(-3, 4))
             if c == 1.0:
                 c = 8.0
+            if rr.random() < 0.25:
+                # a change of units by many orders of magnitude (seconds <->
+                # nanoseconds, years): the rule knows no time scale
+                c = float(2.0 ** rr.choice([-40, -30, -20, 20, 30]))
+                ctx.count("rescale_by_orders_of_magnitude")
             tsc = (np.arange(len(x), dtype=float) if ts is None
                    else np.asarray(ts, dtype=float)) * c
             with warnings.catch_warnings():
@@ -372,7 +386,16 @@ def check_eca(ctx, ES, x, y, ts, taumax, lag, cid, relations=False,
                 shift = float(rr.choice([2.0 ** 24, 2.0 ** 25 + 1, 1.7e9,
                                          -2.0 ** 31, 2.0 ** 40, 2451545.0]))
                 ctx.count("shift_epoch_sized")
-            x2, y2, ts2 = x, y, np.asarray(ts, dtype=float) + shift
+            tsf = np.asarray(ts, dtype=float)
+            if not np.array_equal((tsf + shift) - shift, tsf):
+                # (stamps in a unit in which this shift is not a sum of
+                #  representable numbers: shift by a multiple of the largest
+                #  stamp instead, which is exact)
+                shift = float(np.abs(tsf).max()) * float(rr.integers(1, 5))
+                if not np.array_equal((tsf + shift) - shift, tsf):
+                    shift = 0.0
+                ctx.count("shift_in_units_of_the_stamps")
+            x2, y2, ts2 = x, y, tsf + shift
         with warnings.catch_warnings():
             warnings.simplefilter("ignore")
             ok, o3 = ctx.call(ES.event_coincidence_analysis, x2, y2, taumax,
@@ -461,8 +484,30 @@ def check_matrix(ctx, ES, M, ts, taumax, lag, cid, tm_s=None, lag_s=None):
                 D[i][j], D[j][i] = float(res[0][0]), float(res[0][1])
     # the symmetrisations are requested from ONE object in a random order
     # (and some of them twice): each answer must be right whatever was
-    # asked before
+    # asked before - a Monte-Carlo significance query included (it works on
+    # shuffled copies of the event series)
     ro = ctx.rng("symorder", cid)
+    Mh_before = np.array(Mh, copy=True)
+
+    def significance_first(method):
+        np.random.seed(int(ro.integers(1 << 30)))
+        kw = {} if method == "ES" else {
+            "window_type": str(ro.choice(WINDOWS))}
+        with warnings.catch_warnings():
+            warnings.simplefilter("ignore")
+            oks, sg = ctx.call(obj.event_analysis_significance,
+                               method=method, surrogate="shuffle", n_surr=2,
+                               symmetrization="directed", **kw)
+        ctx.evals()
+        ctx.count("significance_asked_before_analysis")
+        if not oks:
+            ctx.count("significance_raises:" + type(sg).__name__)
+        if not np.array_equal(np.asarray(Mh), Mh_before):
+            ctx.violation("event_analysis_significance:" + method +
+                          ":caller-event-matrix-modified", case, cid)
+    if N <= 4 and M.shape[0] <= 40 and ro.random() < 0.2 and \
+            all(times):
+        significance_first("ES")
     order = [SYM_ES[i] for i in ro.permutation(len(SYM_ES))]
     order += [SYM_ES[i] for i in ro.permutation(len(SYM_ES))[:3]]
     for sym in order:
@@ -497,6 +542,8 @@ def check_matrix(ctx, ES, M, ts, taumax, lag, cid, tm_s=None, lag_s=None):
         return
     empty = any(not t for t in times)
     directed = {}
+    if N <= 4 and M.shape[0] <= 40 and ro.random() < 0.3 and not empty:
+        significance_first("ECA")
     for win in WINDOWS:
         Dref = ref.directed_matrix(
             times, lambda a, b: ref.eca_pair(a, b, taumax, lag, win))
@@ -985,7 +1032,8 @@ def random_case(ctx, ES, k):
     if ts is not None and r.random() < 0.4:
         # other time units (monthly records stamped in days or hours): every
         # time, the lag and a finite window scale together
-        cu = float(r.choice([30.0, 720.0]))
+        cu = float(r.choice([30.0, 720.0, 30.0, 720.0, 2.0 ** -30,
+                             2.0 ** 30]))
         ts = [float(v) * cu for v in ts]
         lag = lag * cu
         if taumax != INF:
